@@ -1,5 +1,6 @@
 (* Corr/C04Model.v — the same cases against Model/Convert.v (built on the regenerated integer pieces). *)
 From NV Require Import Common.Py Common.Trans Spec.TimeSpec Gen.BintimeGen Model.Convert Corr.C04Spec.
+From NV Require Model.Complex Model.TotalSeconds.
 Open Scope Z_scope.
 
 Definition conv_td (src dst : fam) (v : Z) : res Z :=
@@ -48,5 +49,8 @@ Definition c04_model_ok (c : c04case) : bool :=
                          else (do x <- conv_td a b v; conv_td b a x))
   | CtorInt n out => res_eqb Z.eqb out (ctor_int n)
   | CtorRat x out => res_eqb Z.eqb out (ctor_rat (ratio_num x) (ratio_den x))
-  | CtorNonFinite _ | PrecRound _ _ | TotalSeconds _ _ _ | TimingShape _ _ _ _ _ _ _ _ _ _ _ _ _ => c04_spec_ok c
+  | TotalSeconds t m e =>
+      (* bit-exact: three round-to-nearest-even steps *)
+      Complex.fpart_eqb (Complex.FNum m e) (TotalSeconds.total_seconds t)
+  | CtorNonFinite _ | PrecRound _ _ | TimingShape _ _ _ _ _ _ _ _ _ _ _ _ _ => c04_spec_ok c
   end.
